@@ -268,16 +268,16 @@ func executeBinaryExpr(s *ast.AstProcessBinaryExpression, state ProcessState) Pr
 			final := lhs_state.currentValue.getBoolean() != rhs_state.currentValue.getBoolean()
 			final_state.currentValue = ProcessValueBoolean{final}
 		} else if s.Op == ast.LESS {
-			final := lhs_state.currentValue.getNumber() < rhs_state.currentValue.getNumber()
+			final := lhs_state.currentValue.getNumber() < boolToNumber(rhs_state.currentValue.getBoolean())
 			final_state.currentValue = ProcessValueBoolean{final}
 		} else if s.Op == ast.GREATER {
-			final := lhs_state.currentValue.getNumber() > rhs_state.currentValue.getNumber()
+			final := lhs_state.currentValue.getNumber() > boolToNumber(rhs_state.currentValue.getBoolean())
 			final_state.currentValue = ProcessValueBoolean{final}
 		} else if s.Op == ast.LESSEQ {
-			final := lhs_state.currentValue.getNumber() <= rhs_state.currentValue.getNumber()
+			final := lhs_state.currentValue.getNumber() <= boolToNumber(rhs_state.currentValue.getBoolean())
 			final_state.currentValue = ProcessValueBoolean{final}
 		} else if s.Op == ast.GREATEREQ {
-			final := lhs_state.currentValue.getNumber() >= rhs_state.currentValue.getNumber()
+			final := lhs_state.currentValue.getNumber() >= boolToNumber(rhs_state.currentValue.getBoolean())
 			final_state.currentValue = ProcessValueBoolean{final}
 		} else {
 			panic("SHOULDN'T GET HERE (bool) :(")
@@ -321,6 +321,14 @@ func executeBinaryExpr(s *ast.AstProcessBinaryExpression, state ProcessState) Pr
 		}
 	}
 	return final_state
+}
+
+// the right operand of a boolean comparison is coerced to a boolean first (false < true)
+func boolToNumber(value bool) int {
+	if value {
+		return 1
+	}
+	return 0
 }
 
 func executeUnaryExpression(s *ast.AstProcessUnaryExpression, state ProcessState) ProcessState {
